@@ -120,6 +120,11 @@ def check_day(ctx, day, tod):
     eq('np[us]', lambda: dt(np.datetime64(T.isoformat(), 'us')), T)
     if y < 2262:
         eq('np[ns]', lambda: dt(np.datetime64(T.isoformat(), 'ns')), T)
+    Tms = T.replace(microsecond=max(T.microsecond // 1000, 1) * 1000)          # a non-zero number of whole milliseconds
+    eq('np[ms]', lambda: dt(np.datetime64(Tms.isoformat(), 'ms')), Tms)
+    eq('np[h]', lambda: dt(np.datetime64(T.replace(minute=0, second=0, microsecond=0).isoformat(), 'h')), T.replace(minute=0, second=0, microsecond=0))
+    eq('np[m]', lambda: dt(np.datetime64(T.replace(second=0, microsecond=0).isoformat(), 'm')), T.replace(second=0, microsecond=0))
+    eq('pandas index values [ms]', lambda: dt(pd.DatetimeIndex([Tms]).as_unit('ms').values[0]), Tms)
     eq('pd.Timestamp', lambda: dt(pd.Timestamp(T)), T)
     eq('iso T', lambda: dt(Ts.isoformat()), Ts)
     eq('iso T us', lambda: dt(T.isoformat()), T)
